@@ -329,5 +329,105 @@ theorem sign_honest_shape (s : State) (id : Id) (m : Nat) (sg : OTS) (hi : Inv s
       simp [hi.bat _ hc.2, batchSub, edSign, HonestShape, hb]
     · simp at h
 
+/-! ## Persistence layer -/
+
+/-- equal up to the nil-ness flag of `Batches` -/
+def Eqv (a b : State) : Prop :=
+  a.verifier = b.verifier ∧ a.firstBatch = b.firstBatch ∧ a.batches = b.batches ∧
+  a.firstOffset = b.firstOffset ∧ a.offsets = b.offsets ∧ a.offsetsPK2 = b.offsetsPK2 ∧
+  a.offsetsPK2Sig = b.offsetsPK2Sig
+
+theorem eqv_refl (s : State) : Eqv s s := ⟨rfl, rfl, rfl, rfl, rfl, rfl, rfl⟩
+theorem eqv_reload (s : State) : Eqv (reload s) s := ⟨rfl, rfl, rfl, rfl, rfl, rfl, rfl⟩
+
+/-- `Sign` does not read the nil-ness flag -/
+theorem sign_eqv (a b : State) (h : Eqv a b) (id : Id) (m : Nat) : sign a id m = sign b id m := by
+  obtain ⟨v1, fb1, bs1, f1, fo1, os1, pk1, ps1⟩ := a
+  obtain ⟨v2, fb2, bs2, f2, fo2, os2, pk2, ps2⟩ := b
+  simp only [Eqv] at h
+  obtain ⟨rfl, rfl, rfl, rfl, rfl, rfl, rfl⟩ := h
+  rfl
+
+theorem covers_eqv (a b : State) (h : Eqv a b) (id : Id) : covers a id ↔ covers b id := by
+  obtain ⟨_, h1, h2, h3, h4, _, _⟩ := h
+  simp only [covers, h1, h2, h3, h4]
+
+theorem retained_eqv (a b : State) (h : Eqv a b) : retained a = retained b := by
+  obtain ⟨_, _, h2, _, h4, _, _⟩ := h
+  simp only [retained, h2, h4]
+
+theorem wf_reload (s : State) : WF (reload s) := by
+  intro h
+  simp only [reload, Bool.not_eq_eq_eq_not, Bool.not_false, List.isEmpty_iff] at h
+  exact h
+
+theorem inv_reload (s : State) (hi : Inv s) : Inv (reload s) :=
+  ⟨wf_reload s, hi.ver, hi.bat, hi.off, hi.pk2⟩
+
+/-- node invariant: both copies are well-formed and agree up to the nil-ness flag -/
+structure NInv (nd : Node) : Prop where
+  mem : Inv nd.mem
+  disk : Inv nd.disk
+  eqv : Eqv nd.mem nd.disk
+
+theorem ninv_init (start n : Nat) (hsn : start + n < M64) : NInv (nodeInit start n) :=
+  ⟨inv_generate start n hsn, inv_generate start n hsn, eqv_refl _⟩
+
+theorem ninv_run (nd : Node) (h : List NOp) (hi : NInv nd) (hok : OpsOK (advancesOf h)) : NInv (nrun nd h) := by
+  induction h generalizing nd with
+  | nil => exact hi
+  | cons op rest ih =>
+    cases op with
+    | advance cur nk =>
+      have hc : cur.batch + 1 < M64 := hok ⟨cur, nk⟩ (by simp [advancesOf])
+      have hm := inv_delete nd.mem cur nk hi.mem hc
+      exact ih _ ⟨hm, hm, eqv_refl _⟩ (fun o ho => hok o (by simp [advancesOf, ho]))
+    | restart =>
+      exact ih _ ⟨inv_reload _ hi.disk, hi.disk, eqv_reload _⟩ (fun o ho => hok o (by simpa [advancesOf] using ho))
+
+theorem node_covers_sub (nd : Node) (h : List NOp) (hi : NInv nd) (hok : OpsOK (advancesOf h)) (id : Id)
+    (hc : covers (nrun nd h).mem id) : covers nd.mem id ∧ ∀ op ∈ advancesOf h, ¬ Id.lt id op.cur := by
+  induction h generalizing nd with
+  | nil => exact ⟨hc, by intro op hop; cases hop⟩
+  | cons op rest ih =>
+    cases op with
+    | advance cur nk =>
+      have hcb : cur.batch + 1 < M64 := hok ⟨cur, nk⟩ (by simp [advancesOf])
+      have hm := inv_delete nd.mem cur nk hi.mem hcb
+      obtain ⟨h1, h2⟩ := ih ⟨deleteBeforeFineGrained nd.mem cur nk, deleteBeforeFineGrained nd.mem cur nk⟩
+        ⟨hm, hm, eqv_refl _⟩ (fun o ho => hok o (by simp [advancesOf, ho])) hc
+      obtain ⟨h3, h4⟩ := covers_delete_sub nd.mem cur id nk hi.mem.wf hcb h1
+      refine ⟨h3, ?_⟩
+      intro o ho
+      simp only [advancesOf, List.mem_cons] at ho
+      rcases ho with rfl | ho
+      · exact h4
+      · exact h2 o ho
+    | restart =>
+      obtain ⟨h1, h2⟩ := ih ⟨reload nd.disk, nd.disk⟩ ⟨inv_reload _ hi.disk, hi.disk, eqv_reload _⟩
+        (fun o ho => hok o (by simpa [advancesOf] using ho)) hc
+      refine ⟨?_, fun o ho => h2 o (by simpa [advancesOf] using ho)⟩
+      exact (covers_eqv _ _ hi.eqv id).mpr ((covers_eqv _ _ (eqv_reload nd.disk) id).mp h1)
+
+theorem node_covers_sup (nd : Node) (h : List NOp) (hi : NInv nd) (hok : OpsOK (advancesOf h)) (id : Id)
+    (hc : covers nd.mem id) (hfut : ∀ op ∈ advancesOf h, ¬ Id.lt id op.cur ∧ id.offset < op.numKeys) :
+    covers (nrun nd h).mem id := by
+  induction h generalizing nd with
+  | nil => exact hc
+  | cons op rest ih =>
+    cases op with
+    | advance cur nk =>
+      have hcb : cur.batch + 1 < M64 := hok ⟨cur, nk⟩ (by simp [advancesOf])
+      have hm := inv_delete nd.mem cur nk hi.mem hcb
+      have h0 := hfut ⟨cur, nk⟩ (by simp [advancesOf])
+      exact ih ⟨deleteBeforeFineGrained nd.mem cur nk, deleteBeforeFineGrained nd.mem cur nk⟩
+        ⟨hm, hm, eqv_refl _⟩ (fun o ho => hok o (by simp [advancesOf, ho]))
+        (covers_delete_sup nd.mem cur id nk hcb hc h0.1 h0.2)
+        (fun o ho => hfut o (by simp [advancesOf, ho]))
+    | restart =>
+      exact ih ⟨reload nd.disk, nd.disk⟩ ⟨inv_reload _ hi.disk, hi.disk, eqv_reload _⟩
+        (fun o ho => hok o (by simpa [advancesOf] using ho))
+        ((covers_eqv _ _ (eqv_reload nd.disk) id).mpr ((covers_eqv _ _ hi.eqv id).mp hc))
+        (fun o ho => hfut o (by simpa [advancesOf] using ho))
 
 end Lemmas.OneTimeSig
